@@ -139,7 +139,7 @@ R_REF_PAT = make_seq_rule("R-ref-pattern", "&MergePolicy::Window { start, end } 
 R_F64_CMP = make_seq_rule("R-f64-cmp", "entry.fragmentation() > self.conf.merge.triggers.fragmentation", "verif_f64_gt(entry.fragmentation(), self.conf.merge.triggers.fragmentation)")
 # background tasks (C18): ghost log of sleeps and hand-offs; Duration arithmetic as methods (operator traits on a shim type);
 # cloning the Handle is cloning three Arcs (R-arc for values)
-R_BG_GHOST = make_ghost_arg_rule(["sleep", "spawn_blocking", "merge_on_interval", "sync_on_interval"], skip_after={}, arg="Tracked(b)", param="Tracked(b): Tracked<&mut BgLog>")
+R_BG_GHOST = make_ghost_arg_rule(["sleep", "spawn_blocking", "merge_on_interval", "sync_on_interval", "recv"], skip_after={}, arg="Tracked(b)", param="Tracked(b): Tracked<&mut BgLog>")
 R_DUR_SUB = make_seq_rule("R-duration-op", "interval - jitter", "interval.verif_sub(jitter)")
 R_DUR_ADD = make_seq_rule("R-duration-op", "interval + jitter", "interval.verif_add(jitter)")
 R_ARC_CLONE_H = make_seq_rule("R-arc", "handle.clone()", "verif_arc_clone(&handle)", not_after=(".",))
